@@ -265,6 +265,15 @@ def writeU2 (u : Nat) (act : Option (Option NameV)) (m : List (Nat × NameV)) : 
   | some (some v) => aset m u v
   | some none => adel m u
 
+/-- `write_externalid2uuid_add(e_uuid, add)` if any, then `write_externalid2uuid_rem(rem)` if any -/
+def writeE2u (u : Nat) (add rem : Option (List Nat)) (m : List (List Nat × Nat)) : List (List Nat × Nat) :=
+  let m1 := match add with
+    | some k => aset m k u
+    | none => m
+  match rem with
+  | some k => adel m1 k
+  | none => m1
+
 def optList {α : Type} : Option (List α) → List α
   | none => []
   | some l => l
@@ -274,9 +283,7 @@ def nameIndex (mpre mpost : Option SEnt) (u : Nat) (t : Tables) : Tables :=
   let n := n2uDiff mpre mpost
   let e := e2uDiff mpre mpost
   let n2u := writeN2uRem (optList n.2) (writeN2uAdd u (optList n.1) t.n2u)
-  let e2u := match e.1 with | some k => aset t.e2u k u | none => t.e2u
-  let e2u := match e.2 with | some k => adel e2u k | none => e2u
-  { t with n2u := n2u, e2u := e2u,
+  { t with n2u := n2u, e2u := writeE2u u e.1 e.2 t.e2u,
            u2s := writeU2 u (u2Diff spnOf mpre mpost) t.u2s,
            u2r := writeU2 u (u2Diff rdnOf mpre mpost) t.u2r }
 
@@ -285,8 +292,7 @@ def retract (p : SEnt) (t : Tables) : Tables :=
   let n := n2uDiff (some p) none
   let e := e2uDiff (some p) none
   let n2u := writeN2uRem (optList n.2) t.n2u
-  let e2u := match e.2 with | some k => adel t.e2u k | none => t.e2u
-  { t with n2u := n2u, e2u := e2u,
+  { t with n2u := n2u, e2u := writeE2u p.uuid none e.2 t.e2u,
            u2s := writeU2 p.uuid (u2Diff spnOf (some p) none) t.u2s,
            u2r := writeU2 p.uuid (u2Diff rdnOf (some p) none) t.u2r }
 
